@@ -49,7 +49,15 @@ Definition ntol_c (scale : Q) (impl model : Q) : bool :=
   close_rel (1 # 10000) ((1 # 10000) + (1 # 10000) * scale) impl model.
 
 (* c09_meta_test: the blower-door result of the model itself (meta.n50_test_ach): the reported props must hand it on *)
-Record c09_case := mkC09 { c09_props : eprops; c09_impl : n50data; c09_finite : bool; c09_meta_test : option Q }.
+(* c09_model_wincons: the window constructions of the model itself (unique ids) with their permeability c_100: C_h of a
+   window is its construction's, 100 only when the model has no such construction *)
+Record c09_case := mkC09 { c09_props : eprops; c09_impl : n50data; c09_finite : bool; c09_meta_test : option Q;
+  c09_model_wincons : list (uuid * Q) }.
+Definition wincons_passed_on (p : eprops) (e : uuid * Q) : bool :=
+  match find (fun w => N.eqb (fst w) (fst e)) (ep_wincons p) with
+  | Some w => Qeq_bool (cp_c100 (snd w)) (snd e)
+  | None => false
+  end.
 Definition optq_eqb (a b : option Q) : bool :=
   match a, b with None, None => true | Some x, Some y => Qeq_bool x y | _, _ => false end.
 
@@ -64,6 +72,7 @@ Definition agree_C09 (c : c09_case) : N :=
   if near (nd_vol m) (1 # 1000) || near (nd_walls_a m) (1 # 1000) || near (nd_windows_a m) (1 # 1000) then 0%N
   else first_fail [
     (8%N, optq_eqb (gp_n50test (ep_global p)) (c09_meta_test c));
+    (10%N, forallb (wincons_passed_on p) (c09_model_wincons c));
     (9%N, c09_finite c);
     (1%N, ntol (nd_n50_ref i) (nd_n50_ref m));
     (2%N, ntol (nd_n50 i) (nd_n50 m));
